@@ -588,7 +588,12 @@ class Effects:
             site["discharged"] = None
             self.primitive_sites.append(site)
             return [self.esc("IndexError", True, fi, e, "subscript")]
-        if isinstance(e.value, ast.Call) and (unparse(e.value.func) == "struct.unpack" or (self.repo.struct_binding(e.value.func, fi) or ("", ""))[1] == "unpack"):
+        base_v = e.value
+        if isinstance(base_v, ast.Name):
+            al_v = self.repo.local_alias(base_v.id, fi)    # the unpacked record bound to a local (inlined helper result) first
+            if isinstance(al_v, ast.Call):
+                base_v = al_v
+        if isinstance(base_v, ast.Call) and (unparse(base_v.func) == "struct.unpack" or (self.repo.struct_binding(base_v.func, fi) or ("", ""))[1] == "unpack"):
             return []  # non-empty tuple by format
         if isinstance(e.value, ast.Attribute) and unparse(e.value) in ("self.num2func", "self._dispatch", "self._types"):
             if store:
